@@ -22,6 +22,7 @@ package otelcol
 
 import (
 	"context"
+	"os"
 	"errors"
 	"fmt"
 	"reflect"
@@ -32,6 +33,8 @@ import (
 	"testing"
 	"time"
 
+
+	"go.uber.org/zap"
 
 	"go.opentelemetry.io/collector/component"
 	"go.opentelemetry.io/collector/component/componentstatus"
@@ -115,6 +118,8 @@ type v20World struct {
 	quit    chan struct{}
 
 	nogate      bool // free-running mode (race_test.go): the gates let Run pass
+	realLogs    bool        // keep collectorCore in the logging path (log-stress stream)
+	provLogger  *zap.Logger // the logger NewCollector hands to the configuration providers
 	retireGated map[int]bool
 	finalGated  bool
 	finalCtxOK  bool
@@ -254,6 +259,14 @@ func (w *v20World) compCfg(g, idx int) map[string]any {
 	return m
 }
 
+func (w *v20World) telemetryConf() map[string]any {
+	t := map[string]any{"metrics": map[string]any{"level": "none"}}
+	if w.realLogs { // the log-stress stream keeps the real logging cores (collectorCore -> service logger), silenced by the sink
+		t["logs"] = map[string]any{"level": "debug", "output_paths": []any{os.DevNull}, "error_output_paths": []any{os.DevNull}}
+	}
+	return t
+}
+
 func (w *v20World) conf(g int) map[string]any {
 	gen := w.gen(g)
 	exts := map[string]any{}
@@ -284,7 +297,7 @@ func (w *v20World) conf(g int) map[string]any {
 		"exporters":  map[string]any{"v20e": w.compCfg(g, gen.nExt)},
 		"service": map[string]any{
 			"extensions": extList,
-			"telemetry":  map[string]any{"metrics": map[string]any{"level": "none"}},
+			"telemetry":  w.telemetryConf(),
 			"pipelines": map[string]any{"traces": map[string]any{
 				"receivers": []any{"v20r"}, "processors": procList, "exporters": []any{"v20e"}}},
 		},
